@@ -430,8 +430,34 @@ func (b *batchRun) fallback(prep any, err error) (any, error) {
 	b.mu.Lock()
 	g := b.gidLocked()
 	b.mu.Unlock()
+	stalled := false
+	if b.cfg.Sched == "fbhold" && !b.warm {
+		// this fallback takes as long as the other items need: they are other workers' business and must all get done meanwhile
+		deadline := time.Now().Add(4 * time.Second)
+		for {
+			b.mu.Lock()
+			done := map[int]bool{}
+			for _, e := range b.events {
+				if e["ev"] == "execout" && e["out"] != "err" {
+					done[e["item"].(int)] = true
+				}
+			}
+			b.mu.Unlock()
+			if len(done) >= b.cfg.Items-1 {
+				break
+			}
+			if time.Now().After(deadline) {
+				stalled = true
+				break
+			}
+			time.Sleep(200 * time.Microsecond)
+		}
+	}
 	// inside a batch the fallback receives the item Result itself as its "prep value"
 	ev := Event{"ev": "fb", "item": item, "arg": arg.Tok, "aid": arg.Same && !arg.IsErr, "errseen": seen, "out": o.Out, "val": 0, "err": 0, "cancel": o.Cancel, "gid": g}
+	if b.cfg.Sched == "fbhold" {
+		ev["stalled"] = stalled
+	}
 	if o.Cancel {
 		b.cancel()
 	}
